@@ -16,6 +16,7 @@ type RItem struct {
 	Ts      uint32
 	Payload []byte
 	Step    int
+	Ms      int64
 }
 
 // FUnit is one forwardable published unit of a stream (zero-length messages excluded), with the
@@ -75,12 +76,12 @@ func consItems(c *ConsState) []RItem {
 	var out []RItem
 	if c.Rtmp != nil {
 		for _, m := range c.Rtmp.Recv {
-			out = append(out, RItem{Type: m.Type, Ts: m.Ts, Payload: m.Payload, Step: m.Step})
+			out = append(out, RItem{Type: m.Type, Ts: m.Ts, Payload: m.Payload, Step: m.Step, Ms: m.Ms})
 		}
 	}
 	if c.Http != nil {
 		for _, t := range c.Http.Tags {
-			out = append(out, RItem{Type: t.Type, Ts: t.Ts, Payload: t.Data, Step: t.Step})
+			out = append(out, RItem{Type: t.Type, Ts: t.Ts, Payload: t.Data, Step: t.Step, Ms: t.Ms})
 		}
 	}
 	return out
